@@ -61,7 +61,7 @@ pub fn relayout(rows: &[HRow], seeds: &[u16], tags: &mut Vec<String>) -> Vec<(St
         let hdr: Vec<String> = order.iter().map(|&i| { let c = &cols[i]; let name = if c == "settlement date" && legacy_date { "date".to_string() } else { c.clone() }; csv_escape(&header_variant(&name, s(60 + f + i))) }).collect();
         text += &hdr.join(","); text.push('\n');
         for (ri, r) in chunk.iter().enumerate() {
-            let cells: Vec<String> = order.iter().map(|&i| { let c = cols[i].as_str(); if COLS.contains(&c) { let v = cell(r, c); csv_escape(&if s(70 + ri + i) % 7 == 0 && !v.is_empty() && c != "memo" { format!(" {v} ") } else { v }) } else { csv_escape(["junk", "", "12,5", "n/a \"q\""][(s(80 + ri + i) % 4) as usize]) } }).collect();
+            let cells: Vec<String> = order.iter().map(|&i| { let c = cols[i].as_str(); if COLS.contains(&c) { let v = cell(r, c); csv_escape(&if s(70 + ri + i) % 7 == 0 && !v.is_empty() && c != "memo" { format!(" {v} ") } else { v }) } else { csv_escape(["junk", "", "12,5", "n/a \"q\"", "#10021", "# c"][(s(80 + ri + i) % 6) as usize]) } }).collect();
             text += &cells.join(","); text.push('\n');
         }
         if s(90 + f) % 3 == 0 { text = text.replace('\n', "\r\n"); tags.push("crlf".into()); }
@@ -102,7 +102,7 @@ fn check(c: &LayoutCase, obs: &mut Obs) -> Verdict {
 }
 
 pub fn def() -> PropDef {
-    let mut d = PropDef::new("C07", "a generated input (ledger generator, one file, canonical columns) and a generated re-layout of the same rows: 1-5 files in order, per-file column permutation, header case/padding variants, 0-3 unrecognised columns with junk cells, optional columns absent when empty, legacy 'date' header, padded cells, CRLF line ends, and a random row permutation constrained to keep the relative order of rows of one security settling on one date. Every cell of every security table, footer, aggregate table and (in half the cases) the total-costs tables must be identical in full precision; notes compared as multisets. Non-trivial = >= 2 files AND permuted columns AND at least one pair of same-security same-day rows. Distinct = distinct case content.");
+    let mut d = PropDef::new("C07", "a generated input (ledger generator, one file, canonical columns) and a generated re-layout of the same rows: 1-5 files in order, per-file column permutation, header case/padding variants, 0-3 unrecognised columns with junk cells (including cells starting with '#'), memos starting with '#', '=' or a quote, optional columns absent when empty, legacy 'date' header, padded cells, CRLF line ends, and a random row permutation constrained to keep the relative order of rows of one security settling on one date. Every cell of every security table, footer, aggregate table and (in half the cases) the total-costs tables must be identical in full precision; notes compared as multisets. Non-trivial = >= 2 files AND permuted columns AND at least one pair of same-security same-day rows. Distinct = distinct case content.");
     d.assumptions = vec!["the order of notes is C09's business and ignored here"];
     d.subs.push(Box::new(Sub::<LayoutCase> { name: "relayout", cases_quick: 20_000, cases_thorough: 800_000, strategy: Box::new(strategy), to_json: LayoutCase::to_json, from_json: LayoutCase::from_json, check }));
     d
